@@ -1,5 +1,5 @@
 ENGINES = [
-    {"name": "pyscan", "path": "vt/", "serves_properties": ["C01", "C02", "C10", "C11", "C13", "C19", "C20"],
+    {"name": "pyscan", "path": "vt/", "serves_properties": ["C01", "C02", "C07", "C10", "C11", "C13", "C19", "C20"],
      "kind_free_text": "runtime monitoring of the real Python scanner modules imported from /repo's working tree: recorded events judged by independent reference models, icontract invariants on live objects"},
 ]
 NOTES = "All checks: ./check <id> --tier quick|thorough [--seed N]; VERIF_SEED/VERIF_TIER honoured. Exit 0 held / 1 VIOLATION / 2 INCONCLUSIVE. See DESIGN.md."
@@ -36,3 +36,7 @@ add('C01', 'pyscan', 'runtime monitoring, differential: annotated callable vs ba
 add('C02', 'pyscan', 'runtime monitoring: generated un-annotated headers through the real scanner passes; emitted GIR judged against an independently written C-spelling table and the documented defaults (transfer, nullable, throws, closure/destroy/scope, fixed-size arrays)',
     'held on the executions produced (one recorded known finding: const dropped from "const void*" c:type): every spelling of the table in parameter/return/field/alias position, all generated callback/user_data/destroy/async arrangements, GError** positions, out/inout defaults',
     'trusted: vt/ctable.py, stand-in C parser, stub GIRs; defaults the documentation does not pin down (returned records, pointer-to-_Bool, user data not named *data) are not judged', 'DESIGN.md 4 C02')
+
+add('C07', 'pyscan', 'runtime monitoring: write/read/write cycles of the real GIRWriter/GIRParser on pipeline-produced namespaces and on the repository\'s GIR files; byte comparison, model-agreement walker, built-in --reparse-validate path',
+    'held on the executions produced (one recorded known finding: form feed / vertical tab in documentation gives ill-formed GIR): W1==W2==W3 byte for byte for every generated namespace, F==W1 for the 13 expected GIRs, fixed point for the 11 hand-written GIRs, read-back model equal on the API-relevant attribute list',
+    'trusted: attribute allowlist of the model walker; generators of C01/C02/C13 + documentation generator', 'DESIGN.md 4 C07')
